@@ -328,6 +328,7 @@ Section Replace.
 Variable lead : bool.      (* see Stringify *)
 Variable cat_fix : bool.   (* true: the repaired `##` with an empty operand; false: the original code *)
 Variable str_white : bool. (* true: the string made by # has the prev_white of the # token (repaired) *)
+Variable resub_fix : bool. (* true: results of # / ## are not searched for parameter names again (repaired) *)
 
 Definition raw_or_self (m : macro) (ia : list iarg) (t : tok) : res (list tok) :=
   match index_of (tt t) (m_args m) 0 with
@@ -339,9 +340,13 @@ Definition raw_or_self (m : macro) (ia : list iarg) (t : tok) : res (list tok) :
 Definition placemarker (w : bool) : tok := mkTok KId w "" true.
 Definition is_placemarker (t : tok) : bool := is_id t && String.eqb (tt t) "".
 
-(* the has_strcat loop *)
-Fixpoint cat_loop (fuel : nat) (m : macro) (ia : list iarg) (rest acc : list tok) (last_cat : bool)
-  : res (list tok) :=
+(* the has_strcat loop; every element of res_tokens is paired with its `final` flag
+   (True = result of # or ##).  Before the repair the code kept only the flag of the LAST
+   element (last_cat), which is what [snd] of the popped pair is. *)
+Definition fin (t : tok) : tok * bool := (t, true).
+
+Fixpoint cat_loop (fuel : nat) (m : macro) (ia : list iarg) (rest : list tok) (acc : list (tok * bool))
+  : res (list (tok * bool)) :=
   match fuel with
   | O => Err "OutOfFuel"
   | S f =>
@@ -351,7 +356,7 @@ Fixpoint cat_loop (fuel : nat) (m : macro) (ia : list iarg) (rest acc : list tok
       if is_txt "##" t then
         match pop_last acc with
         | None => Err "IndexError"
-        | Some (res0, last) =>
+        | Some (res0, (last, last_cat)) =>
           let pw := tw last in
           match (if last_cat then Ok [last] else raw_or_self m ia last) with
           | Err e => Err e
@@ -365,21 +370,21 @@ Fixpoint cat_loop (fuel : nat) (m : macro) (ia : list iarg) (rest acc : list tok
                 match pop_last lastl with
                 | Some (linit, ll) =>
                   match nextl with
-                  | [] => if cat_fix then cat_loop f m ia rest2 (res0 ++ lastl) true
+                  | [] => if cat_fix then cat_loop f m ia rest2 (res0 ++ map fin lastl)
                           else Err "IndexError"
                   | n0 :: nrest =>
                     match lex_one (tt ll ++ tt n0)%string with
                     | None => Err "ParseError"
                     | Some (k, s) =>
                         let toadd := linit ++ [mkTok k (tw ll) s true] ++ nrest in
-                        cat_loop f m ia rest2 (res0 ++ set_w_hd pw toadd) true
+                        cat_loop f m ia rest2 (res0 ++ map fin (set_w_hd pw toadd))
                     end
                   end
                 | None =>
                     match nextl with
-                    | [] => if cat_fix then cat_loop f m ia rest2 (res0 ++ [placemarker pw]) true
-                            else cat_loop f m ia rest2 res0 true
-                    | _ => cat_loop f m ia rest2 (res0 ++ nextl) true
+                    | [] => if cat_fix then cat_loop f m ia rest2 (res0 ++ [fin (placemarker pw)])
+                            else cat_loop f m ia rest2 res0
+                    | _ => cat_loop f m ia rest2 (res0 ++ map fin nextl)
                     end
                 end
               end
@@ -397,23 +402,24 @@ Fixpoint cat_loop (fuel : nat) (m : macro) (ia : list iarg) (rest acc : list tok
             | None => Err "IndexError"
             | Some a =>
               match stringify lead (fst a) with
-              | Ok s => cat_loop f m ia rest2 (acc ++ [if str_white then set_w (tw t) s else s]) true
+              | Ok s => cat_loop f m ia rest2 (acc ++ [fin (if str_white then set_w (tw t) s else s)])
               | Err e => Err e
               end
             end
           end
         end
-      else cat_loop f m ia rest1 (acc ++ [t]) false
+      else cat_loop f m ia rest1 (acc ++ [(t, false)])
     end
   end.
 
 (* the final substitution loop *)
-Fixpoint substitute (m : macro) (ia : list iarg) (l : list tok) : res (list tok) :=
+Fixpoint substitute (m : macro) (ia : list iarg) (l : list (tok * bool)) : res (list tok) :=
   match l with
   | [] => Ok []
-  | t :: r =>
+  | (t, done) :: r =>
       if cat_fix && is_placemarker t then substitute m ia r else
-      match (match index_of (tt t) (m_args m) 0 with
+      match (if resub_fix && done then Ok [t] else
+             match index_of (tt t) (m_args m) 0 with
              | Some i => match nth_error ia i with
                          | Some a => match exp_of a with
                                      | Ok e => Ok (set_w_hd (tw t) e)
@@ -432,8 +438,8 @@ Definition replace_fun (m : macro) (ia : list iarg) : res (list tok) :=
   match merge_variadic m ia with
   | Err e => Err e
   | Ok ia' =>
-      match (if m_strcat m then cat_loop (S (List.length (m_repl m))) m ia' (m_repl m) [] false
-             else Ok (m_repl m)) with
+      match (if m_strcat m then cat_loop (S (List.length (m_repl m))) m ia' (m_repl m) []
+             else Ok (map (fun t => (t, false)) (m_repl m))) with
       | Err e => Err e
       | Ok res => substitute m ia' res
       end
@@ -454,6 +460,7 @@ Section Expand.
 Variable lead : bool.
 Variable cat_fix : bool.
 Variable str_white : bool.
+Variable resub_fix : bool.
 Variable base_name : option string.   (* what expand() puts into no_expand for its own stream:
                                          Some "None" = the original `str(ident)`, None = repaired *)
 Variable rescan : bool.               (* true = the original splice: pos goes back to the START of the
@@ -741,7 +748,7 @@ Fixpoint run (fuel : nat) (s : xst) : res xst :=
                         match pre 0 args s4 with
                         | Err e => Err e
                         | Ok (ias, s5) =>
-                          match replace_fun lead cat_fix str_white m ias with
+                          match replace_fun lead cat_fix str_white resub_fix m ias with
                           | Err e => Err e
                           | Ok repl => continue (push (set_w_hd (tw ctok) repl) (Some (m_name m)) s5)
                           end
